@@ -96,6 +96,10 @@ def gen_cases(ctx):
             yield {"tc": None, "tr": 1.2, "traffic": tf, "cb": True, "raise_at": raise_at,
                    "progress": [[0.1, "right", 0], [0.5, "foreign", 1], [0.5, "right", 2],
                                 [0.9, "right_total_msg", 3], [1.1, "right_missing", 4], [1.3, "right", 5]]}
+    for raise_at in (1, 2):
+        for kind in ("unprintable", "base"):
+            yield {"tc": None, "tr": 1.2, "traffic": "none", "cb": True, "raise_at": raise_at, "raise_kind": kind,
+                   "progress": [[0.1, "right", 0], [0.5, "right", 2], [0.9, "right_total_msg", 3]]}
     # 3b. the caller's params object has a history: it was used for an earlier request (a retry with the same dict),
     #     already carries a _meta member, or already carries a progressToken of the caller's choosing
     for mode in ("reused", "reused_twice", "own_meta", "own_token", "own_token_int", "none_params"):
@@ -135,6 +139,14 @@ def exec_case(ctx, case: Dict[str, Any]) -> None:
         async def cb(progress, total, message):
             cb_log.append({"t": loop.time(), "args": (progress, total, message)})
             if case.get("raise_at") is not None and len(cb_log) == case["raise_at"]:
+                if case.get("raise_kind") == "unprintable":
+                    class Unprintable(Exception):
+                        def __str__(self):
+                            raise RuntimeError("this exception cannot be rendered")
+                        __repr__ = __str__
+                    raise Unprintable()
+                if case.get("raise_kind") == "base":
+                    raise ArithmeticError()   # no arguments
                 raise RuntimeError("callback exploded")
 
         if tc == "pre":
